@@ -98,7 +98,13 @@ def opValidity : OpFn := fun view inp out => do
   -- statement of C04 for the well-formed cases (dates that exist, durations of the documented form)
   let dateOk (s : String) := s.isEmpty || (V1.parseDate s tz).isSome
   let wellFormed := dateOk from_ && dateOk until_ && (duration.isEmpty || (V1.parseDuration duration).isSome) && !(until_ ≠ "" && duration ≠ "")
-  let specOk := if !wellFormed then true else
+  -- a validity that ends after the year 9999 cannot be represented in a certificate: outside the statement
+  let representable := match model with
+    | some m => (Calendar.wallOf m.until_ tz).year ≤ 9999 && (Calendar.wallOf m.until_ 0).year ≤ 9999
+    | none => !(V1.toTimeStruct ⟨from_, until_, duration⟩ now tz |>.toOption).isNone || false
+  let tooLate := model.isNone && (match V1.toTimeStruct ⟨from_, until_, duration⟩ now tz with | .error e => e == "validity ends after the year 9999" | .ok _ => false)
+  let _ := representable
+  let specOk := if !wellFormed || tooLate then true else
     match impl with
     | none => false
     | some v =>
